@@ -377,9 +377,18 @@ fn check_location(pop: &Pop, w: &World) -> Result<(), Failure> {
     Ok(())
 }
 
-/// the ids under which the shorter-prefix domain is known to see the nodes of the longer one
-fn digit_aliases(ext: &str, foreign: &[NodeEntry]) -> Vec<u128> {
-    foreign.iter().filter_map(|n| format!("{ext}{}", n.id).parse::<u128>().ok()).collect()
+/// The ids under which one domain is known to see the nodes of the other one when the prefixes
+/// differ by decimal digits `ext` and the root is shared (the file name '<prefix><id>.node_monitor'
+/// is ambiguous): the shorter-prefix domain sees every foreign node n as ext+n; the longer-prefix
+/// domain sees those foreign nodes whose id happens to start with ext, as the rest of the digits.
+fn digit_aliases(ext: &str, i_am_shorter: bool, foreign: &[NodeEntry]) -> Vec<u128> {
+    foreign
+        .iter()
+        .filter_map(|n| {
+            let id = n.id.to_string();
+            if i_am_shorter { format!("{ext}{id}").parse::<u128>().ok() } else { id.strip_prefix(ext).and_then(|r| r.parse::<u128>().ok()) }
+        })
+        .collect()
 }
 
 fn observe(me: &Pop, other: &Pop, rel: &Rel, when: &str, w: &World, extra_nodes: &[NodeEntry], extra_services: &[(String, String)]) -> Result<(), Failure> {
@@ -397,11 +406,10 @@ fn observe(me: &Pop, other: &Pop, rel: &Rel, when: &str, w: &World, extra_nodes:
         if want.contains(g) {
             continue;
         }
-        let i_am_shorter = rel.extension.as_ref().map(|(a_shorter, _)| *a_shorter == (me.tag == "A")).unwrap_or(false);
-        if rel.same_root && i_am_shorter {
-            let ext = &rel.extension.as_ref().unwrap().1;
-            if is_decimal(ext) && digit_aliases(ext, &foreign).contains(&g.id) {
-                w.known.hit_or_fail(SIG_NODE_DIGITS, || format!("{who}: Node::list reports {} node {} — that is the other domain's node, whose monitor file name '{}<id>.node_monitor' also parses as '{}' + '{ext}<id>'", g.state, g.id, other.dom.prefix, me.dom.prefix))?;
+        if let (true, Some((a_shorter, ext))) = (rel.same_root, rel.extension.as_ref()) {
+            let i_am_shorter = *a_shorter == (me.tag == "A");
+            if is_decimal(ext) && digit_aliases(ext, i_am_shorter, &foreign).contains(&g.id) {
+                w.known.hit_or_fail(SIG_NODE_DIGITS, || format!("{who}: Node::list reports {} node {} — that is a node of the other domain (its nodes: {foreign:?}): the monitor file name '<prefix><id>.node_monitor' of one domain also parses with the other prefix, the prefixes differ by the digits '{ext}'", g.state, g.id))?;
                 continue;
             }
         }
@@ -563,8 +571,8 @@ fn trace_child(c: &IsoCase, a: &Pop, b: &Pop, rel: &Rel, w: &World, n: u64, obs:
         if want.contains(g) {
             continue;
         }
-        if rel.same_root && rel.extension.as_ref().map(|(a_shorter, e)| !*a_shorter && is_decimal(e) && digit_aliases(e, &foreign).contains(&g.id)).unwrap_or(false) {
-            w.known.hit_or_fail(SIG_NODE_DIGITS, || format!("a process of domain B (prefix '{}') lists node {} ({}) which is a node of domain A (prefix '{}') in the same root", b.dom.prefix, g.id, g.state, a.dom.prefix))?;
+        if rel.same_root && rel.extension.as_ref().map(|(a_shorter, e)| is_decimal(e) && digit_aliases(e, !*a_shorter, &foreign).contains(&g.id)).unwrap_or(false) {
+            w.known.hit_or_fail(SIG_NODE_DIGITS, || format!("a process of domain B (prefix '{}') lists node {} ({}) which is a node of domain A (prefix '{}', nodes {foreign:?}) in the same root", b.dom.prefix, g.id, g.state, a.dom.prefix))?;
             continue;
         }
         fail!("isolation.node_list_sees_foreign_node", "a process of domain B (prefix '{}', root {root}) lists node {g:?}; B's nodes are {want:?}, A's nodes (prefix '{}') are {foreign:?}", b.dom.prefix, a.dom.prefix);
@@ -588,6 +596,13 @@ fn trace_child(c: &IsoCase, a: &Pop, b: &Pop, rel: &Rel, w: &World, n: u64, obs:
     services.sort();
     ensure!(services == want, "isolation.service_list_sees_foreign_service", "a process of domain B (prefix '{}') lists the services {services:?}; B contains {want:?}, A (prefix '{}') contains {:?}", b.dom.prefix, a.dom.prefix, a.expected_services());
     Ok(())
+}
+
+fn timing(t: &mut std::time::Instant, what: &str) {
+    if std::env::var_os("VERIF_C19_TIMING").is_some() {
+        eprintln!("c19 timing {what}: {:?}", t.elapsed());
+        *t = std::time::Instant::now();
+    }
 }
 
 fn wipe(base: &str, roots: &[&Path]) {
@@ -657,6 +672,7 @@ pub fn run_case(c: &IsoCase, obs: &mut Obs, known: &Known, global_toml: &Path, s
 
     let dom_a = Domain::at(&p, &root_a);
     let dom_b = Domain::at(&q, &root_b);
+    let mut t = std::time::Instant::now();
     let result = (|| -> Result<(), Failure> {
         let mut a = match create_pop("A", dom_a, &c.a, None, &rel, &w, &roots) {
             Ok(p) => p,
@@ -666,6 +682,7 @@ pub fn run_case(c: &IsoCase, obs: &mut Obs, known: &Known, global_toml: &Path, s
             }
         };
         let r = (|| -> Result<(), Failure> {
+            timing(&mut t, "create A");
             check_location(&a, &w)?;
             let mut b = match create_pop("B", dom_b, &c.b, Some(&a), &rel, &w, &roots) {
                 Ok(p) => p,
@@ -688,8 +705,10 @@ pub fn run_case(c: &IsoCase, obs: &mut Obs, known: &Known, global_toml: &Path, s
                 if a.services.iter().any(|x| b.services.iter().any(|y| x.name == y.name && x.pattern == y.pattern)) {
                     obs.class("iso.same_service_in_both_domains");
                 }
+                timing(&mut t, "create B");
                 observe(&b, &a, &rel, "both populations exist", &w, &[], &[])?;
                 observe(&a, &b, &rel, "both populations exist", &w, &[], &[])?;
+                timing(&mut t, "observe x2");
                 a.probe_all(100, "pop.probe", "before any foreign action")?;
                 b.probe_all(200, "pop.probe", "before any foreign action")?;
                 // dead-node cleanup from B, then from A
@@ -705,10 +724,12 @@ pub fn run_case(c: &IsoCase, obs: &mut Obs, known: &Known, global_toml: &Path, s
                 cleanup(&mut a, &b, &rel, &w, &roots, obs)?;
                 observe(&b, &a, &rel, "after the dead-node cleanup in A", &w, &[], &[])?;
                 b.probe_all(201, "isolation.cleanup_breaks_foreign_service", "after the dead-node cleanup in domain A")?;
+                timing(&mut t, "probes, cleanups, observes");
                 // a whole application in domain B
                 let bf = scan_files(&roots);
                 let bs = scan_shm(&w.base);
                 trace_child(c, &a, &b, &rel, &w, n, obs)?;
+                timing(&mut t, "trace child");
                 if !rel.same_domain {
                     intact(&a, &bf, &bs, &w.base, "isolation.lifecycle_removes_foreign_resources", "an application life cycle in domain B")?;
                 }
@@ -741,6 +762,7 @@ pub fn run_case(c: &IsoCase, obs: &mut Obs, known: &Known, global_toml: &Path, s
         ensure!(stray.is_empty() && scan_shm(&w.sandbox_prefix).is_empty(), "location.global_config_used", "objects were created with the process-wide global configuration (root {}, prefix '{}') instead of the domain's: {stray:?} {:?}", w.sandbox_root.display(), w.sandbox_prefix, scan_shm(&w.sandbox_prefix));
         Ok(())
     });
+    timing(&mut t, "rest");
     wipe(&base, &roots);
     if scan_shm(sandbox_prefix).len() + scan_files(&[sandbox_root]).len() > 0 {
         wipe(sandbox_prefix, &[]);
@@ -779,22 +801,47 @@ fn shrink_candidates(c: &IsoCase) -> Vec<IsoCase> {
     v
 }
 
+/// One CPU per worker (a ptrace stop is nothing but wake-ups; across CPUs they are very expensive
+/// in this VM). Unlike `Ctx::pin_to_one_cpu` the assignment is rotated by the parent's pid, so that
+/// the workers of several checks running at the same time do not all sit on the first CPUs.
+fn pin(ctx: &Ctx) {
+    unsafe {
+        let ncpu = libc::sysconf(libc::_SC_NPROCESSORS_ONLN).max(1) as usize;
+        let mut set: libc::cpu_set_t = std::mem::zeroed();
+        libc::CPU_SET((libc::getppid() as usize + ctx.worker) % ncpu, &mut set);
+        libc::sched_setaffinity(0, std::mem::size_of::<libc::cpu_set_t>(), &set);
+    }
+}
+
+pub struct Sandbox {
+    pub toml: PathBuf,
+    pub root: PathBuf,
+    pub prefix: String,
+}
+
+/// process-wide global configuration = a sandbox inside the run directory; a code path that falls
+/// back to `Config::global_config()` shows up as objects in the sandbox (a violation) instead of
+/// touching /tmp/iceoryx2
+pub fn install_sandbox(ctx: &mut Ctx) -> Option<Sandbox> {
+    let run = vcore::util::run_dir();
+    let root = run.join("gsandbox");
+    let prefix = format!("v{}x0kG_", std::process::id());
+    let toml = run.join("global.toml");
+    let _ = std::fs::create_dir_all(&root);
+    if let Err(e) = child::write_config_toml(&toml, root.to_str().unwrap(), &prefix).map_err(|e| e.to_string()).and_then(|_| child::install_global_config(&toml)) {
+        ctx.inconclusive(format!("isolation: cannot install the sandbox global configuration: {e}"));
+        return None;
+    }
+    Some(Sandbox { toml, root, prefix })
+}
+
 pub fn pairs(ctx: &mut Ctx, known: &Known) {
     let part = "isolation.pairs";
     if !ctx.part_enabled(part) {
         return;
     }
-    // process-wide global configuration = a sandbox; a fallback to it shows up as a violation
-    let run = vcore::util::run_dir();
-    let sandbox_root = run.join("gsandbox");
-    let sandbox_prefix = format!("v{}x0kG_", std::process::id());
-    let toml = run.join("global.toml");
-    let _ = std::fs::create_dir_all(&sandbox_root);
-    if let Err(e) = child::write_config_toml(&toml, sandbox_root.to_str().unwrap(), &sandbox_prefix).map_err(|e| e.to_string()).and_then(|_| child::install_global_config(&toml)) {
-        ctx.inconclusive(format!("{part}: cannot install the sandbox global configuration: {e}"));
-        return;
-    }
-    ctx.pin_to_one_cpu();
+    let Some(Sandbox { toml, root: sandbox_root, prefix: sandbox_prefix }) = install_sandbox(ctx) else { return };
+    pin(ctx);
     known.probe_mode(true);
     let run_one = |c: &IsoCase, obs: &mut Obs| Ctx::guarded(|| run_case(c, obs, known, &toml, &sandbox_root, &sandbox_prefix));
     if let Some(c) = ctx.replay_case::<IsoCase>(part) {
@@ -807,7 +854,8 @@ pub fn pairs(ctx: &mut Ctx, known: &Known) {
         known.probe_mode(false);
         return;
     }
-    let total = ctx.scale(480u64, 12_000);
+    // VERIF_C19_PAIRS: debugging aid (number of pairs instead of the tier value)
+    let total = std::env::var("VERIF_C19_PAIRS").ok().and_then(|v| v.parse().ok()).unwrap_or(ctx.scale(480u64, 12_000));
     let mine = ctx.share(total);
     let mut rng = ctx.rng(part);
     for i in 0..mine {
@@ -834,8 +882,11 @@ pub fn pairs(ctx: &mut Ctx, known: &Known) {
                 16,
             );
             let mut o = Obs::default();
-            let fmin = run_one(&min, &mut o).err().unwrap_or(f);
-            ctx.violation(part, &fmin, serde_json::to_value(&min).unwrap());
+            match run_one(&min, &mut o) {
+                Err(g) if g.signature == sig => ctx.violation(part, &g, serde_json::to_value(&min).unwrap()),
+                // not reproducible on the shrunk case: report the original case and failure
+                _ => ctx.violation(part, &f, serde_json::to_value(&c).unwrap()),
+            }
             break;
         }
     }
@@ -850,8 +901,8 @@ pub fn cleanup_probe(ctx: &mut Ctx, known: &Known) {
     if !ctx.part_enabled(part) || ctx.replay.is_some() || ctx.worker != 0 {
         return;
     }
+    let Some(Sandbox { toml, .. }) = install_sandbox(ctx) else { return };
     let run = vcore::util::run_dir();
-    let toml = run.join("global.toml");
     for (k, ext) in ["1", "42", "a"].iter().enumerate() {
         let case = serde_json::json!({"shorter_prefix": "<base>_", "longer_prefix": format!("<base>_{ext}"), "root": "same", "dead_node_in": "longer", "cleaner": "process whose global configuration is the shorter-prefix domain"});
         known.probe_mode(true);
